@@ -352,7 +352,7 @@ func init() {
 		select {
 		case <-done:
 			return "returned"
-		case <-time.After(3 * time.Second):
+		case <-time.After(8 * time.Second):
 			return "hang"
 		}
 	}
@@ -521,7 +521,30 @@ func genC17(g *G) {
 		}
 		g.Emit("hist", itoa(N), joinOr(opsl, "/"))
 	}
-	// ---- liveness through the exported API only (few cases: a regression costs 3 s per hanging case)
+	// ---- exhaustive small scope for the two critical sections: every single fault position in a delivery, then in
+	//      the recording of its outcome, then a further delivery (a leaked mutex shows as `hang`)
+	subsets := [][]int{{0}, {1}, {2}, {0, 1}, {1, 2}, {2, 0}, {0, 1, 2}}
+	single := func(n int) []string {
+		out := []string{""}
+		for k := 0; k < n; k++ {
+			out = append(out, "@"+strings.Repeat("0", k)+"1")
+		}
+		return out
+	}
+	for _, ns := range subsets {
+		for _, fd := range single(2 * len(ns)) {
+			for _, kind := range []string{"S", "F", "T"} {
+				fos := single(len(ns))
+				if kind == "T" {
+					fos = []string{""}
+				}
+				for _, fo := range fos {
+					g.Emit("hist", "3", "D"+c17Ints(ns)+fd+"/"+kind+"0"+fo+"/R0,1,2/D0,1,2/S1")
+				}
+			}
+		}
+	}
+	// ---- liveness through the exported API only (few cases: a regression costs 8 s per hanging case)
 	for _, c := range [][2]string{{"m", "1"}, {"m", "01"}, {"mm", "001"}, {"fe", "-"}, {"mpm", "0001"}, {"-", "-"}} {
 		g.Emit("live", c[0], c[1])
 	}
